@@ -7,13 +7,14 @@ From TFL Require Import Model.RTLStructure.
 (* ------------------------------------------------------------------ *)
 Definition countp {A} (p : A -> bool) (l : list A) : nat := length (filter p l).
 Definition b2n (b : bool) : nat := if b then 1 else 0.
+Arguments countp : simpl never.
 
 Lemma countp_cons {A} (p : A -> bool) x l : countp p (x :: l) = b2n (p x) + countp p l.
 Proof. unfold countp; cbn. destruct (p x); reflexivity. Qed.
 Lemma countp_app {A} (p : A -> bool) a b : countp p (a ++ b) = countp p a + countp p b.
 Proof. unfold countp. rewrite filter_app, app_length. reflexivity. Qed.
 Lemma countp_perm {A} (p : A -> bool) a b : Permutation a b -> countp p a = countp p b.
-Proof. induction 1; rewrite ?countp_cons; try lia. reflexivity. Qed.
+Proof. induction 1; rewrite ?countp_cons; lia. Qed.
 Lemma countp_concat {A} (p : A -> bool) ls : countp p (concat ls) = list_sum (map (countp p) ls).
 Proof. induction ls as [|l ls IH]; cbn; [reflexivity|]. rewrite countp_app, IH. reflexivity. Qed.
 Lemma countp_firstn_le {A} (p : A -> bool) k l : countp p (firstn k l) <= countp p l.
@@ -37,10 +38,13 @@ Proof. intros E. induction l as [|x l IH]; [reflexivity|]. rewrite !countp_cons,
 
 Lemma countp_seq i s n : countp (Nat.eqb i) (seq s n) = b2n ((s <=? i) && (i <? s + n)).
 Proof. revert s; induction n as [|n IH]; intros s; cbn [seq].
-  - unfold countp; cbn. destruct (Nat.leb_spec s i), (Nat.ltb_spec i (s + 0)); cbn; lia.
+  - change (countp (Nat.eqb i) []) with 0.
+    destruct (s <=? i) eqn:E1, (i <? s + 0) eqn:E2; cbn; try reflexivity.
+    apply Nat.leb_le in E1. apply Nat.ltb_lt in E2. lia.
   - rewrite countp_cons, IH.
-    destruct (Nat.eqb_spec i s), (Nat.leb_spec s i), (Nat.leb_spec (S s) i),
-      (Nat.ltb_spec i (s + S n)), (Nat.ltb_spec i (S s + n)); cbn; lia. Qed.
+    destruct (i =? s) eqn:E0, (s <=? i) eqn:E1, (S s <=? i) eqn:E2, (i <? s + S n) eqn:E3, (i <? S s + n) eqn:E4;
+      cbn; try reflexivity; exfalso;
+      rewrite ?Nat.eqb_eq, ?Nat.eqb_neq, ?Nat.leb_le, ?Nat.leb_gt, ?Nat.ltb_lt, ?Nat.ltb_ge in *; lia. Qed.
 
 (* ------------------------------------------------------------------ *)
 (* set_at / nth                                                        *)
@@ -76,6 +80,8 @@ Lemma countp_tile {A} (p : A -> bool) l k : countp p (tile l k) = k * countp p l
 Proof. induction k; cbn; [reflexivity|]. rewrite countp_app, IHk. reflexivity. Qed.
 Lemma in_tile {A} (l : list A) k x : In x (tile l k) -> In x l.
 Proof. induction k; cbn; [tauto|]. rewrite in_app_iff. tauto. Qed.
+Lemma in_firstn {A} k (l : list A) x : In x (firstn k l) -> In x l.
+Proof. revert k; induction l as [|y l IH]; intros [|k]; cbn; try tauto. intros [H|H]; eauto. Qed.
 Lemma firstn_tile {A} (l : list A) q k r :
   firstn (q * length l + r) (tile l (q + k)) = tile l q ++ firstn r (tile l k).
 Proof. induction q as [|q IH]; cbn [tile Nat.add Nat.mul]; [reflexivity|].
@@ -115,11 +121,10 @@ Proof. rewrite <- (map_length r_idx), flatten_idx, seq_length. reflexivity. Qed.
 Lemma flatten_mono x r : In r (flatten x) -> r_mono r = if r_idx r <? n_inc x then 1 else 0.
 Proof. unfold flatten, n_inc. rewrite in_app_iff. intros [H|H].
   - rewrite (flat_groups_mono _ _ _ _ _ H).
-    assert (Hi : In (r_idx r) (seq 0 (list_sum (sizes_of (in_inc x))))) by (rewrite <- flat_groups_idx; apply in_map; exact H).
+    pose proof (in_map r_idx _ _ H) as Hi. rewrite flat_groups_idx in Hi.
     apply in_seq in Hi. destruct (Nat.ltb_spec (r_idx r) (list_sum (sizes_of (in_inc x)))); [reflexivity|lia].
   - rewrite (flat_groups_mono _ _ _ _ _ H).
-    assert (Hi : In (r_idx r) (seq (list_sum (sizes_of (in_inc x))) (list_sum (sizes_of (in_unc x)))))
-      by (rewrite <- flat_groups_idx; apply in_map; exact H).
+    pose proof (in_map r_idx _ _ H) as Hi. rewrite flat_groups_idx in Hi.
     apply in_seq in Hi. destruct (Nat.ltb_spec (r_idx r) (list_sum (sizes_of (in_inc x)))); [lia|reflexivity]. Qed.
 Lemma flatten_nth_idx x i : i < n_inputs x -> r_idx (nth i (flatten x) rin0) = i.
 Proof. intros H. change (r_idx (nth i (flatten x) rin0)) with ((fun r => r_idx r) (nth i (flatten x) rin0)).
@@ -236,6 +241,10 @@ Proof. induction d as [|y l IH]; cbn. reflexivity. destruct (lex_leb _ _). refle
 Lemma sort_items_perm d : Permutation (sort_items d) d.
 Proof. induction d as [|x l IH]; cbn. reflexivity. rewrite ins_item_perm, IH. reflexivity. Qed.
 
+Lemma Permutation_concat {A} (a b : list (list A)) : Permutation a b -> Permutation (concat a) (concat b).
+Proof. induction 1; cbn. reflexivity. apply Permutation_app_head; assumption.
+  rewrite !app_assoc. apply Permutation_app_tail, Permutation_app_comm. etransitivity; eassumption. Qed.
+
 Lemma all_lattices_flat_map s : all_lattices s = flat_map snd s.
 Proof. unfold all_lattices. rewrite flat_map_concat_map. reflexivity. Qed.
 
@@ -330,7 +339,7 @@ Proof. destruct accepted as [H1 H2]. unfold slots, rtl_slots. fold x. rewrite fl
 Lemma slots_in r : In r slots -> In r (flatten x).
 Proof. unfold slots, rtl_slots. fold x. intros H.
   apply (Permutation_in _ (Permutation_sym (sh2_perm _))) in H.
-  apply firstn_In, in_tile in H. apply (Permutation_in _ (Permutation_sym (sh1_perm _))) in H. exact H. Qed.
+  apply in_firstn, in_tile in H. apply (Permutation_in _ (Permutation_sym (sh1_perm _))) in H. exact H. Qed.
 
 Let lats := rtl_lattices cfg sh1 sh2.
 
@@ -376,13 +385,8 @@ Proof. split; [|split].
 (* --- usage counts --- *)
 Lemma usage_eq i : usage s i = countp (fun r => Nat.eqb i (r_idx r)) slots.
 Proof. unfold usage. rewrite <- countp_count_occ.
-  rewrite (countp_perm _ _ _ (Permutation_flat_map (fun l => l) s_lattices)) || idtac.
-  assert (E : Permutation (concat (all_lattices s)) (concat (map (fun l => map r_idx (sort_mono l)) lats))).
-  { rewrite <- !flat_map_concat_map. rewrite !flat_map_concat_map, !map_id.
-    rewrite <- (map_id (all_lattices s)), <- (map_id (map _ lats)), <- !flat_map_concat_map.
-    apply Permutation_flat_map. exact s_lattices. }
-  rewrite (countp_perm _ _ _ E). rewrite <- lats_count.
-  clear. induction lats as [|l ls IH]; cbn. reflexivity.
+  rewrite (countp_perm _ _ _ (Permutation_concat _ _ s_lattices)). rewrite <- lats_count.
+  clear. induction lats as [|l ls IH]; cbn [map concat]. reflexivity.
   rewrite !countp_app, IH, countp_map. f_equal. apply countp_perm, sort_mono_perm. Qed.
 
 Lemma rtl_usage_bounds i : i < n -> q <= usage s i <= q + 1.
@@ -415,9 +419,8 @@ Lemma rtl_wiring m ls lat p : In (m, ls) s -> In lat ls -> p < c_rank cfg ->
   nth p lat 0 < n /\ nth p m 0 = input_mono x (nth p lat 0).
 Proof. intros Hm Hl Hp. pose proof s_entries as HF. rewrite Forall_forall in HF.
   destruct (HF _ Hm) as [_ H]. destruct (H lat Hl) as [l [Hin [Em El]]]. cbn in Em. subst m lat.
-  set (l' := sort_mono l).
-  assert (Hlen : length l' = c_rank cfg) by (unfold l'; rewrite (Permutation_length (sort_mono_perm l)); apply lats_rank; exact Hin).
-  assert (Hr : In (nth p l' rin0) (flatten x)).
+  assert (Hlen : length (sort_mono l) = c_rank cfg) by (rewrite (Permutation_length (sort_mono_perm l)); apply lats_rank; exact Hin).
+  assert (Hr : In (nth p (sort_mono l) rin0) (flatten x)).
   { apply (lats_in l); [exact Hin|]. apply (Permutation_in _ (sort_mono_perm l)). apply nth_In. lia. }
   change 0 with (r_idx rin0) at 1 3. change 0 with (r_mono rin0) at 1. rewrite !map_nth.
   destruct (flatten_mono_input _ _ Hr) as [H1 H2]. fold n in H2. auto. Qed.
@@ -429,8 +432,141 @@ End Pipeline.
 (* ------------------------------------------------------------------ *)
 Lemma list_max_01 m : (forall v, In v m -> v = 0 \/ v = 1) ->
   (list_max m = 1 /\ In 1 m) \/ (list_max m = 0 /\ ~ In 1 m).
-Proof. induction m as [|v m IH]; intros H; cbn. right; split; [reflexivity|tauto].
-  destruct (H v (or_introl eq_refl)) as [->| ->].
-  - destruct IH as [[E I]|[E I]]. intros; apply H; right; assumption.
-    left; split; [rewrite E; reflexivity|auto]. right; split; [rewrite E; reflexivity|]. intros [D|D]; [discriminate|tauto].
-  - left. split; [|auto]. destruct (list_max m); reflexivity. Qed.
+Proof. induction m as [|v m IH]; intros H. right; split; [reflexivity|cbn; tauto].
+  change (list_max (v :: m)) with (Nat.max v (list_max m)).
+  assert (IH' := IH (fun w Hw => H w (or_intror Hw))). clear IH.
+  destruct (H v (or_introl eq_refl)) as [->| ->]; cbn [In].
+  - destruct IH' as [[E I]|[E I]]; rewrite E; cbn. left; auto. right; split; [reflexivity|]. intros [D|D]; [discriminate|tauto].
+  - left. split; [|auto]. destruct IH' as [[E _]|[E _]]; rewrite E; reflexivity. Qed.
+
+Lemma in_nth_ex {A} (l : list A) x d : In x l -> exists p, p < length l /\ nth p l d = x.
+Proof. intros H. destruct (In_nth l x d H) as [p [H1 H2]]. eauto. Qed.
+
+Lemma filter_partition {A} (f : A -> nat) (l : list A) : (forall e, In e l -> f e = 0 \/ f e = 1) ->
+  Permutation (filter (fun e => f e =? 0) l ++ filter (fun e => f e =? 1) l) l.
+Proof. induction l as [|e l IH]; intros H; cbn. reflexivity.
+  assert (IH' := IH (fun e' He' => H e' (or_intror He'))). clear IH.
+  destruct (H e (or_introl eq_refl)) as [E|E]; rewrite E; cbn.
+  - apply perm_skip; exact IH'.
+  - rewrite <- Permutation_middle. apply perm_skip; exact IH'. Qed.
+
+(* ------------------------------------------------------------------ *)
+(* closed statements                                                   *)
+(* ------------------------------------------------------------------ *)
+Definition perm_oracle (sh : list rin -> list rin) : Prop := forall l, Permutation l (sh l).
+
+Section Closed.
+Variables sh1 sh2 : list rin -> list rin.
+Hypothesis P1 : perm_oracle sh1.
+Hypothesis P2 : perm_oracle sh2.
+Variable cfg : rtl_cfg.
+Variable s : structure.
+Hypothesis Hs : rtl_structure cfg sh1 sh2 = Some s.
+Let x := c_input cfg.
+
+Lemma rtl_accepted_closed : 0 < n_inputs x <= c_num cfg * c_rank cfg.
+Proof. destruct (accepted sh1 sh2 cfg s Hs). unfold x. lia. Qed.
+
+Lemma rtl_rank_closed :
+  length (all_lattices s) = c_num cfg /\
+  forall m ls, In (m, ls) s -> length m = c_rank cfg /\ forall lat, In lat ls -> length lat = c_rank cfg.
+Proof. destruct (rtl_rank sh1 sh2 P1 P2 cfg s Hs) as [H1 [H2 H3]]. split; [exact H1|].
+  intros m ls H. split. eapply H3; exact H. intros lat Hl. apply H2. eapply in_all_lattices; eassumption. Qed.
+
+Lemma rtl_key_01 m ls : In (m, ls) s -> forall v, In v m -> v = 0 \/ v = 1.
+Proof. intros H v Hv. pose proof (s_entries sh1 sh2 cfg s Hs) as HF. rewrite Forall_forall in HF.
+  destruct (HF _ H) as [[l [Hl E]] _]. cbn in E. subst m. apply in_map_iff in Hv. destruct Hv as [r [<- Hr]].
+  apply (Permutation_in _ (sort_mono_perm l)) in Hr.
+  pose proof (lats_in sh1 sh2 P1 P2 cfg s Hs l r Hl Hr) as Hf. rewrite (flatten_mono _ _ Hf).
+  destruct (_ <? _); auto. Qed.
+
+Lemma rtl_label_closed m ls lat : In (m, ls) s -> In lat ls ->
+  (out_label m = 0 \/ out_label m = 1) /\
+  (out_label m = 1 <-> exists i, In i lat /\ input_mono x i = 1).
+Proof. intros Hm Hl. destruct rtl_rank_closed as [_ HR]. destruct (HR m ls Hm) as [Lm Ll]. specialize (Ll lat Hl).
+  pose proof (fun p => rtl_wiring sh1 sh2 P1 P2 cfg s Hs m ls lat p Hm Hl) as W. fold x in W.
+  unfold out_label. destruct (list_max_01 m (rtl_key_01 m ls Hm)) as [[E I]|[E I]]; rewrite E.
+  - split; [auto|]. split; [intros _|reflexivity]. destruct (in_nth_ex m 1 0 I) as [p [Hp Ep]].
+    destruct (W p ltac:(lia)) as [_ W2]. exists (nth p lat 0). split. apply nth_In; lia. congruence.
+  - split; [auto|]. split; [discriminate|]. intros [i [Hi Ei]]. exfalso. apply I.
+    destruct (in_nth_ex lat i 0 Hi) as [p [Hp Ep]]. destruct (W p ltac:(lia)) as [_ W2].
+    rewrite Ep, Ei in W2. rewrite <- W2. apply nth_In; lia. Qed.
+
+Lemma rtl_outputs_closed :
+  (forall lat, In lat (snd (rtl_outputs s)) -> exists i, In i lat /\ input_mono x i = 1) /\
+  (forall lat, In lat (fst (rtl_outputs s)) -> forall i, In i lat -> input_mono x i <> 1) /\
+  Permutation (fst (rtl_outputs s) ++ snd (rtl_outputs s)) (all_lattices s).
+Proof. unfold rtl_outputs; cbn [fst snd]. split; [|split].
+  - intros lat H. apply in_concat in H. destruct H as [ls [H1 H2]]. apply in_map_iff in H1.
+    destruct H1 as [[m ls'] [E H1]]. cbn in E; subst ls'. apply filter_In in H1. destruct H1 as [H1 H3].
+    cbn in H3. apply Nat.eqb_eq in H3. apply (rtl_label_closed m ls lat H1 H2). exact H3.
+  - intros lat H i Hi Ei. apply in_concat in H. destruct H as [ls [H1 H2]]. apply in_map_iff in H1.
+    destruct H1 as [[m ls'] [E H1]]. cbn in E; subst ls'. apply filter_In in H1. destruct H1 as [H1 H3].
+    cbn in H3. apply Nat.eqb_eq in H3.
+    destruct (rtl_label_closed m ls lat H1 H2) as [_ [_ Hx]].
+    assert (H : out_label m = 1) by (apply Hx; eauto). unfold out_label, list_max in H. congruence.
+  - rewrite <- concat_app, <- map_app. apply Permutation_concat, Permutation_map.
+    apply (filter_partition (fun e => out_label (fst e))). intros [m ls] He. cbn.
+    pose proof (rtl_key_01 m ls He) as K. unfold out_label.
+    destruct (list_max_01 m K) as [[E _]|[E _]]; auto. Qed.
+
+End Closed.
+
+(* the structure depends on the oracles only through the two permutations
+   they return for this configuration *)
+Lemma rtl_deterministic_closed cfg sh1 sh2 sh1' sh2' :
+  let inputs := flatten (c_input cfg) in
+  let total := c_num cfg * c_rank cfg in
+  sh1 inputs = sh1' inputs ->
+  sh2 (firstn total (tile (sh1 inputs) (1 + total / length inputs))) =
+  sh2' (firstn total (tile (sh1 inputs) (1 + total / length inputs))) ->
+  rtl_structure cfg sh1 sh2 = rtl_structure cfg sh1' sh2'.
+Proof. cbv zeta. intros E1 E2. cbv beta zeta delta [rtl_structure rtl_lattices rtl_slots]. rewrite <- E1, E2. reflexivity. Qed.
+
+Section Closed2.
+Variables sh1 sh2 : list rin -> list rin.
+Hypothesis P1 : perm_oracle sh1.
+Hypothesis P2 : perm_oracle sh2.
+Variable cfg : rtl_cfg.
+Variable s : structure.
+Hypothesis Hs : rtl_structure cfg sh1 sh2 = Some s.
+
+Lemma rtl_coverage_closed :
+  (forall i, i < length (flatten (c_input cfg)) -> exists lat, In lat (all_lattices s) /\ In i lat) /\
+  (forall lat i, In lat (all_lattices s) -> In i lat -> i < length (flatten (c_input cfg))).
+Proof. rewrite flatten_length. split.
+  - intros i Hi. exact (rtl_coverage sh1 sh2 P1 P2 cfg s Hs i Hi).
+  - intros lat i Hl Hi. destruct (Nat.lt_ge_cases i (n_inputs (c_input cfg))) as [H|H]; [exact H|exfalso].
+    pose proof (rtl_usage_outside sh1 sh2 P1 P2 cfg s Hs i H) as U. unfold usage in U.
+    assert (Hin : In i (concat (all_lattices s))) by (apply in_concat; eauto).
+    apply (count_occ_In Nat.eq_dec) in Hin. lia. Qed.
+
+Lemma rtl_balanced_closed :
+  let n := length (flatten (c_input cfg)) in
+  let q := (c_num cfg * c_rank cfg) / n in
+  1 <= q /\
+  (forall i, i < n -> q <= usage s i <= q + 1) /\
+  (forall i j, i < n -> j < n -> usage s i <= usage s j + 1).
+Proof. cbv zeta. rewrite flatten_length. split; [|split].
+  - exact (q_pos sh1 sh2 cfg s Hs).
+  - intros i Hi. exact (rtl_usage_bounds sh1 sh2 P1 P2 cfg s Hs i Hi).
+  - intros i j Hi Hj. exact (rtl_balanced sh1 sh2 P1 P2 cfg s Hs i j Hi Hj). Qed.
+
+Lemma rtl_wiring_closed m ls lat : In (m, ls) s -> In lat ls ->
+  (forall p, p < c_rank cfg -> nth p m 0 = input_mono (c_input cfg) (nth p lat 0)) /\
+  (out_label m = 0 \/ out_label m = 1) /\
+  (out_label m = 1 <-> exists i, In i lat /\ input_mono (c_input cfg) i = 1).
+Proof. intros Hm Hl. split.
+  - intros p Hp. apply (rtl_wiring sh1 sh2 P1 P2 cfg s Hs m ls lat p Hm Hl Hp).
+  - exact (rtl_label_closed sh1 sh2 P1 P2 cfg s Hs m ls lat Hm Hl). Qed.
+
+Lemma rtl_input_layout_closed i : i < length (flatten (c_input cfg)) ->
+  (input_mono (c_input cfg) i = 1 <-> i < list_sum (sizes_of (in_inc (c_input cfg)))) /\
+  (input_mono (c_input cfg) i = 0 <-> list_sum (sizes_of (in_inc (c_input cfg))) <= i).
+Proof. rewrite flatten_length. intros H. rewrite (input_mono_spec _ _ H). unfold n_inc.
+  destruct (Nat.ltb_spec i (list_sum (sizes_of (in_inc (c_input cfg))))); split; split; intros; try lia; discriminate. Qed.
+End Closed2.
+
+(* hypotheses are satisfiable: the identity oracle on a small layer *)
+Lemma perm_oracle_id : perm_oracle (fun l => l).
+Proof. intros l; reflexivity. Qed.
